@@ -639,7 +639,7 @@ def oracle_alone(ctx, name, cases, hcmd):
     if not seen:
         ctx.violation("hmg:batch-only", {"harness_cmd": hcmd, "ops": [l for c in cases for l in c][:200]}, found_input=False,
                       what="oracle failure only in the concatenated run")
-    ctx.log(f"{name}: {len(seen)} kinds of oracle failure")
+    ctx.log(f"{name}: {len(seen)} kinds of oracle failure / sanitizer report (listed known findings included)")
     return len(seen)
 
 
